@@ -15,7 +15,7 @@ from __future__ import annotations
 import ast
 from typing import Dict, FrozenSet, List, Optional, Set, Tuple
 
-from ..astutil import names_in, txt
+from ..astutil import parents, names_in, txt
 from ..model import GEOM7, AnalysisError, FunctionInfo, walk_local
 from ..types import S, show
 from .c15 import method_reads
@@ -496,6 +496,111 @@ def notes_r74(ctx, res):
                      % (cname, sorted(s.retS | s.retE)))
 
 
+def field_shares(ctx, cname: str) -> Dict[Tuple[str, str], str]:
+    """(F, G) -> reason: field F of the class holds (by reference) an object that field G holds as well, because some
+    method stores  self.F = K(..., <element of self.G>, ...)  with a constructor K that keeps that argument by
+    reference (effect summary of K.__init__), or  self.F = <element of self.G>  directly"""
+    ef = ctx.effects
+    eng = ctx.types
+    c = ctx.repo.cls(cname)
+    out: Dict[Tuple[str, str], str] = {}
+    for m in c.methods.values():
+        sn = m.self_name
+        if sn is None:
+            continue
+        for st in walk_local(m.node):
+            if not (isinstance(st, ast.Assign) and len(st.targets) == 1 and isinstance(st.targets[0], ast.Attribute)
+                    and isinstance(st.targets[0].value, ast.Name) and st.targets[0].value.id == sn):
+                continue
+            F = st.targets[0].attr
+
+            def field_of(e):
+                """self.G / self.G[i] -> G"""
+                while isinstance(e, ast.Subscript):
+                    e = e.value
+                if isinstance(e, ast.Attribute) and isinstance(e.value, ast.Name) and e.value.id == sn:
+                    return e.attr
+                return None
+
+            v = st.value
+            if isinstance(v, ast.UnaryOp):
+                v = v.operand
+            G = field_of(v)
+            if G is not None and G != F and isinstance(st.value, ast.Subscript):
+                out[(F, G)] = "`%s` in %s" % (txt(st)[:60], m.short)
+            if isinstance(v, ast.Call):
+                tgs = eng.call_targets.get((m.qual, id(v)), set())
+                for q in tgs:
+                    k = eng.fn_by_qual.get(q)
+                    if k is None or k.name != "__init__":
+                        continue
+                    caps = {r[2:] for r in ef.summ[k.qual].cap if r.startswith("P:")}
+                    for i, a in enumerate(v.args):
+                        G = field_of(a)
+                        if G is None or G == F:
+                            continue
+                        pname = k.params[i + 1] if i + 1 < len(k.params) else k.vararg
+                        if pname in caps:
+                            out[(F, G)] = "`%s` in %s (%s keeps `%s` by reference)" % (txt(st)[:60], m.short, k.short, pname)
+    return out
+
+
+def r74_single_translation(ctx, res):
+    """move() translates every object once: two in-place translations on one path may not reach the same object --
+    the same field twice, or two fields that share an object (the plane of a polygon is anchored at one of its
+    vertices)"""
+    n = 0
+    for cname in GEOM7:
+        fi = ctx.repo.cls(cname).lookup("move")
+        if fi is None or fi.cls.name != cname:
+            continue
+        sn, v = fi.self_name, fi.params[1]
+        g = ctx.cfg(fi)
+        asg = {}
+        for st in walk_local(fi.node):
+            if isinstance(st, (ast.For, ast.comprehension)) and isinstance(st.target, ast.Name):
+                asg[st.target.id] = st.iter
+        sites = []
+        par = parents(fi.node)
+        for c in walk_local(fi.node):
+            if not (isinstance(c, ast.Call) and isinstance(c.func, ast.Attribute) and c.func.attr == "move" and len(c.args) == 1):
+                continue
+            recv = c.func.value
+            if isinstance(recv, ast.Name) and recv.id in asg:
+                recv = asg[recv.id]
+            while isinstance(recv, ast.Subscript):
+                recv = recv.value
+            if isinstance(recv, ast.Attribute) and isinstance(recv.value, ast.Name) and recv.value.id == sn:
+                stmt = c
+                while id(stmt) in par and not isinstance(stmt, ast.stmt):
+                    stmt = par[id(stmt)]
+                sites.append((c, recv.attr, stmt))
+        shares = field_shares(ctx, cname)
+        n += 1
+        bad = []
+        for i, (c1, f1, s1) in enumerate(sites):
+            for c2, f2, s2 in sites[i + 1:]:
+                why = None
+                if f1 == f2:
+                    why = "both translate `%s.%s`" % (sn, f1)
+                elif (f1, f2) in shares or (f2, f1) in shares:
+                    why = "`%s.%s` and `%s.%s` share an object: %s" % (sn, f1, sn, f2, shares.get((f1, f2)) or shares.get((f2, f1)))
+                if why is None:
+                    continue
+                n1, n2 = g.nodes_of(s1), g.nodes_of(s2)
+                if n1 and n2 and (n2[0] in g.reach([n1[0]]) or n1[0] in g.reach([n2[0]])) and s1 is not s2:
+                    bad.append((c1, c2, why))
+        ok = not bad
+        res.ob("R7.4", fi.where(), "%s.move translates every object once" % cname, ok,
+               "%d in-place translation(s), no two of them reach one object (sharing: %s)" % (len(sites), sorted(shares) or "none") if ok else
+               "`%s` and `%s`: %s" % (txt(bad[0][0])[:30], txt(bad[0][1])[:30], bad[0][2]))
+        for c1, c2, why in bad[:2]:
+            res.violation("R7.4", fi, c2, "%s.move translates one object twice: `%s` and `%s` -- %s; after move(v) that part of the "
+                          "receiver sits at +2v" % (cname, txt(c1)[:40], txt(c2)[:40], why),
+                          construct="%s.move double translation %s / %s" % (cname, txt(c1)[:30], txt(c2)[:30]))
+    ctx.require(res, "R7.4", n, 7, "move methods")
+
+
 def run(ctx, res):
     res.explanation = (
         "Forward must-dataflow over the CFG of each of the 7 move() methods from the accepting edge of the "
@@ -515,5 +620,6 @@ def run(ctx, res):
     ctx.require(res, "R7.1", n_pos, 18, "positional fields")
     for cname in GEOM7:
         check_move(ctx, res, cname, table[cname])
+    r74_single_translation(ctx, res)
     notes_r74(ctx, res)
     res.undecided_ob("measures unchanged after move; move(v) then move(-v) restores an equal object (floating point)")
